@@ -163,6 +163,28 @@ fn sequence(rep: &mut Report, args: &Args, case: u64) {
         let res = std::panic::catch_unwind(std::panic::AssertUnwindSafe(|| engine.commit_with_receipt(tx)));
         all_programs.push(programs);
         let Ok(Ok((snap, _receipt, patch))) = res else {
+            let why = match &res {
+                Ok(Err(e)) => format!("{e:?}"),
+                Err(p) => p.downcast_ref::<String>().cloned().or_else(|| p.downcast_ref::<&str>().map(|s| (*s).to_owned())).unwrap_or_else(|| "non-string panic (footprint violation?)".into()),
+                Ok(Ok(_)) => String::new(),
+            };
+            rep.observe("sequence_tick_failures", &why.chars().take(160).collect::<String>());
+            rep.observe("sequence_tick_failure_cases", &format!("{case}@tick{_t}"));
+            if std::env::var_os("VERIF_C04_DUMP_FAILED_TICK").is_some() {
+                eprintln!("FAILED TICK case {case} tick {_t}: {why}");
+                let (pre_abs, _) = AState::extract(&before);
+                for p in all_programs.last().into_iter().flatten() {
+                    let (effects, _) = prog::eval(p, &prog::AbstractReader { st: &pre_abs, w: p.warp });
+                    let ops = prog::effects_to_ops(&effects, &p.delete_sources());
+                    let mut st = before.clone();
+                    let patch = WarpTickPatchV1::new(0, [0; 32], warp_core::TickCommitStatus::Committed, vec![], vec![], ops.clone());
+                    let r = patch.apply_to_state(&mut st);
+                    eprintln!("  slot {} warp {} scope {} alone => {:?}; ops {:?}", p.slot, verif_core::hex4(&p.warp.0), verif_core::hex4(&p.scope.0), r.err(), p.ops);
+                    if r.is_err() {
+                        eprintln!("     emitted: {:?}", patch.ops());
+                    }
+                }
+            }
             rep.inconclusive("sequence tick failed (reported under C01/C14)");
             for p in &all_programs { prog::uninstall(p); }
             return;
@@ -171,6 +193,16 @@ fn sequence(rep: &mut Report, args: &Args, case: u64) {
             rep.inconclusive("harness: apply failed in sequence");
         }
         let (post, _) = AState::extract(engine.state());
+        if std::env::var_os("VERIF_C04_DUMP_FAILED_TICK").is_some() {
+            for (k, (f, t, _)) in &post.edges {
+                if !post.nodes.contains_key(&(k.0, *f)) || !post.nodes.contains_key(&(k.0, *t)) {
+                    eprintln!("DANGLING after case {case} tick {_t}: edge {} from {} to {} (from exists {}, to exists {})", verif_core::hex4(&k.1 .0), verif_core::hex4(&f.0), verif_core::hex4(&t.0), post.nodes.contains_key(&(k.0, *f)), post.nodes.contains_key(&(k.0, *t)));
+                    for p in all_programs.last().into_iter().flatten() {
+                        eprintln!("    slot {} warp {} scope {} ops {:?}", p.slot, verif_core::hex4(&p.warp.0), verif_core::hex4(&p.scope.0), p.ops);
+                    }
+                }
+            }
+        }
         rep.eval();
         rep.count("ticks_replayed", 1);
         if let Some((cls, msg)) = replay_check(&before, g.root, &patch, &post, &snap.state_root) {
